@@ -430,6 +430,14 @@ Section Elem.
       assert (r' = r) by (eapply resolve_det; eassumption). subst. exact E.
   Qed.
 
+  Theorem noncyclic_result t f :
+    cyclic_alias leaf tm t f = false -> exists r, resolve leaf tm (fuel_of tm) t f = Ok r.
+  Proof.
+    unfold cyclic_alias. intros Hc.
+    destruct (detect leaf tm (fuel_of tm) [] t f) as [r'| |] eqn:E; [|discriminate|exfalso; eapply detect_total; exact E].
+    exists r'. apply (detect_done _ _ _ _ _ E).
+  Qed.
+
   (* on the inputs where the unchanged code returns, the fix changes nothing *)
   Theorem fixed_eq_unfixed t f :
     cyclic_alias leaf tm t f = false ->
